@@ -385,20 +385,42 @@ func c14Check(c *harness.Ctx) {
 		}
 	}
 	c.Res.Extra["unrepresentable_cases"] = float64(nUnrep)
+	// two peers whose OPENs are built and written side by side: all schedules within the bound
+	// (without the happens-before cache, see c14TwoPeersScn: 3 delays do not finish in minutes)
+	bound := 2
+	for i, h := range []uint16{9, 90, 0} {
+		if !c.Mine(i + 5) {
+			continue
+		}
+		if !exploreScn(c, "C14", c14TwoPeersScn(bound, h)) {
+			return
+		}
+	}
 }
 
 func init() {
 	harness.Register(&harness.Check{
 		Property: "C14", Level: "exploration", NeedsConc: true, QuickS: 120, ThoroughS: 900,
-		Rule:   "product of local AS {1,23456,64512,65535,65536,4200000000,2^32-1} x hold {0,3,90,65535} x router id {0.0.0.1,10.0.0.1,255.255.255.255} x a capability set, plus representative configurations x all capability lists of length <=2 (quick) / <=3 (thorough) over codes {0,1,65,69,255} x value lengths {0,1,4,255}, totals around the 255-octet limit, up to 40 capabilities, unrepresentable values (256, 300, 65542 bytes) and totals; plus the OPEN of a second connection (after a session with another hold time; with the plugin returning the same capability slice again, which corebgp must not have modified); each case is one real connection (both directions) whose first message is parsed by an independent strict OPEN parser; all cases non-trivial, distinct by configuration",
+		Rule:   "product of local AS {1,23456,64512,65535,65536,4200000000,2^32-1} x hold {0,3,90,65535} x router id {0.0.0.1,10.0.0.1,255.255.255.255} x a capability set, plus representative configurations x all capability lists of length <=2 (quick) / <=3 (thorough) over codes {0,1,65,69,255} x value lengths {0,1,4,255}, totals around the 255-octet limit, up to 40 capabilities, unrepresentable values (256, 300, 65542 bytes) and totals; plus the OPEN of a second connection (after a session with another hold time; with the plugin returning the same capability slice again, which corebgp must not have modified); plus two peers with different configurations connected to at the same instant, every schedule within 2 delays run to its end without the happens-before cache and each first message judged against its own peer; each case is one real connection (both directions) whose first message is parsed by an independent strict OPEN parser; all cases non-trivial, distinct by configuration",
 		Assume: []string{"default schedule; virtual network (A3)", "for unrepresentable capability lists only well-formedness of what is written is judged (property: no malformed OPEN)"},
 		Run:    c14Check,
 		Replay: func(c *harness.Ctx, raw json.RawMessage) {
 			var r struct {
-				Case c14Case `json:"case"`
+				Case     c14Case `json:"case"`
+				Scenario string  `json:"scenario"`
 			}
 			if err := json.Unmarshal(raw, &r); err != nil {
 				panic(err)
+			}
+			if r.Scenario != "" {
+				scnReplay("C14", func(name string) *Scn {
+					var h uint16
+					if n, _ := fmt.Sscanf(name, "two-peers-open/hold%d", &h); n == 1 {
+						return c14TwoPeersScn(3, h)
+					}
+					return nil
+				})(c, raw)
+				return
 			}
 			rule, msg, representable, rep := c14Run(r.Case, true)
 			if rule != "" {
